@@ -215,6 +215,18 @@ fn families(names: &[i32], rng: &mut ChaCha8Rng, budget: usize) -> Vec<Vec<Vec<i
         out.push(vec![vec![names[0]], vec![names[0]]]);
         out.push(vec![names.to_vec(), names.to_vec()]);
     }
+    // empty members: a partition padded with empty sets is still disjoint and covering, also when that makes more
+    // members than nodes; a family that misses a node stays a non-partition however it is padded
+    let mut padded: Vec<Vec<i32>> = if names.is_empty() { vec![] } else { vec![names.to_vec()] };
+    padded.push(vec![]);
+    out.push(padded);
+    let mut singles: Vec<Vec<i32>> = names.iter().map(|x| vec![*x]).collect();
+    singles.insert(singles.len() / 2, vec![]);
+    singles.push(vec![]);
+    out.push(singles);
+    if names.len() >= 2 {
+        out.push(vec![vec![], names[1..].to_vec(), vec![], vec![]]);
+    }
     out
 }
 
